@@ -99,3 +99,8 @@ class Reused:
             for c in value.columns:
                 self.obj[c] = value[c].values
         return self.obj
+
+
+def flag(rng, b):
+    """A boolean option the way callers end up passing it: the Python singleton or a numpy.bool_ (an element of an array, `np.any(...)`)."""
+    return np.bool_(b) if rng.random() < 0.5 else bool(b)
